@@ -44,7 +44,7 @@ def cases(tier, seed):
             elif dn.prod(M) * dn.prod(N) <= cap:
                 break
         base = {'gen': 'prod', 'routine': routine, 'M': M, 'N': N, 'K': K, 'RA': gens.rank_profile(rng, d, 'rand', 4), 'RB': gens.rank_profile(rng, d, 'rand', 4),
-                'vals': ['gauss', 'decay', 'gauss', 'gauss'][(i // 4) % 4], 'eps': 10 ** rng.uniform(-12, -1), 'guess': ['none', 'none', 'user'][(i // 2) % 3],
+                'vals': ['gauss', 'decay', 'gauss', 'deep4'][(i // 4) % 4], 'eps': 10 ** rng.uniform(-12, -1), 'guess': ['none', 'none', 'user'][(i // 2) % 3],
                 'dtype': 'c128' if (routine in ('fast_matvec', 'dmrg_hadamard') and i % 5 == 4) else 'f64', 'vseed': rng.randrange(2 ** 40), 'RG': gens.rank_profile(rng, d, 'rand', 5),
                 'scale': [1.0, 1.0, 1e4, 1e-4, 1.0, 1e3, 1e-15][(i // 4) % 7]}
         for j in range(k):
@@ -101,7 +101,10 @@ def mk(case, g, N, R, M=None, vals=None):
     dt = dn.dtype_of(case['dtype'])
     vals = vals or case['vals']
     sc = float(case.get('scale', 1.0))      # overall magnitude of the operand (norm-rescaling inside the sweeps must not leak into the tolerance)
-    cores = gens.make_cores(N, R, dt, 'gauss' if vals == 'decay' else vals, g, M=M)
+    cores = gens.make_cores(N, R, dt, 'gauss' if vals in ('decay', 'deep4') else vals, g, M=M)
+    if vals == 'deep4':
+        # bond weights 1, 3e-4, 1e-7, 3e-11: twelve orders of magnitude within rank 4 (truncation decisions that matter only at tiny eps)
+        cores = [c * torch.tensor([10.0 ** (-3.5 * j) for j in range(c.shape[-1])], dtype=torch.float64).to(c.dtype) for c in cores]
     if vals == 'decay':
         out = []
         for c in cores:
